@@ -1023,7 +1023,7 @@ pub fn gen_plan(prop: &str, seed: u64, variant: u64) -> Plan {
     let mut p = gen_plan_inner(prop, seed, variant);
     // the builder recipe (constructor, order of setters) varies with the run
     if !matches!(p.cfg.keys, KeyMode::Typed { .. }) {
-        p.cfg.recipe = ((variant / 3) % 4) as u8;
+        p.cfg.recipe = ((variant / 3) % 8) as u8;
     }
     // every seventh run goes through the constructor's defaults
     if variant % 7 == 3 {
